@@ -120,46 +120,99 @@ def _r3(chk, repo):
                     f"different pixel orders, so fun2par(par2fun(p)) != p and adjoints built on them are wrong", c)
     if nres < 2:
         raise AnchorError("Image2D: reshape/ravel calls not found")
+    from .common import canon_fn, views
+    from ..pathtable import walk
+    from ..pattern import norm as pn
     for d in ("par2fun", "fun2par"):
         f = im.methods[d]
-        first = strip_docstring(f.body)[0]
-        ok = isinstance(first, ast.If) and _norm(first.test) == "self.visual_only" and isinstance(first.body[0], ast.Return) and \
-            _norm(first.body[0].value) == func_params(f)[1]
-        chk.add("C13-R3", f"{im.qual}.{d}/visual_only", ok, site(repo, f), "identity when visual_only", f"{d} does not honour visual_only", f)
+        kind, res = walk(canon_fn(repo, im, f, 1), {"self.visual_only": True}, pn)
+        ok = kind == "return" and pn(res) == func_params(f)[1]
+        chk.decide("C13-R3", f"{im.qual}.{d}/visual_only", ok, kind != "unknown", site(repo, f), "identity when visual_only", f"{d} does not honour visual_only", f)
     c2 = repo.cls(f"{GEO}:Continuous2D")
     p2f, f2p = c2.methods["par2fun"], c2.methods["fun2par"]
-    a, b = _norm(p2f), _norm(f2p)
-    ok = "funvals=pars.reshape(self.fun_shape+(-1,))returnfunvals.squeeze()" in a and "pars=funvals.reshape((self.par_dim,)+(-1,))returnpars.squeeze()" in b
+    xa, xb = func_params(p2f)[1], func_params(f2p)[1]
+    ok = f"return {xa}.reshape(self.fun_shape+(-1,)).squeeze()" in views(repo, c2, p2f) and f"return {xb}.reshape((self.par_dim,-1)).squeeze()" in views(repo, c2, f2p)
     chk.add("C13-R3", f"{c2.qual}/reshape-pair", ok, site(repo, p2f), "both directions: default order, trailing -1 axis, squeeze",
             "Continuous2D par2fun/fun2par no longer use the same (default) order and batch convention", p2f)
 
 
 def _r4(chk, repo):
+    """StepExpansion: the node set of step i, as the closed expression of (grid, i, n) that is collected for it, for i == 0 and for i > 0
+    (sa/pathtable.py walks the code up to the loop and then the loop body for both cases; temporaries, aliases of self.grid and a helper
+    that computes the partition are resolved on the way)."""
+    from .common import canon_fn
+    from ..pathtable import walk, walk_stmts
+    from ..pattern import norm as pn
+    from ..canon import _SymOrder
     se = repo.cls(f"{GEO}:StepExpansion")
-    init = se.methods["__init__"]
-    loops = [n for n in ast.walk(init) if isinstance(n, ast.For)]
-    if len(loops) != 1:
-        raise AnchorError("StepExpansion.__init__: interval loop not found")
-    lp = loops[0]
-    t = [_norm(s) for s in lp.body]
-    i = lp.target.id
+    src = se.methods["__init__"]
+    init = canon_fn(repo, se, src, 2)
+    # up to the loop, on the path of valid arguments (all argument checks pass)
+    class _Any(dict):
+        def __contains__(self, k): return False
+    kind, res = _walk_to_loop(init, pn)
+    if kind != "loop":
+        raise AnchorError(f"StepExpansion.__init__: interval loop not found ({kind}: {res})")
+    env, node = res
+    lp = node.ast
+    i = lp.target.id if isinstance(lp.target, ast.Name) else None
     problems = []
-    if _norm(lp.iter) != "range(self._n_steps)":
+    if i is None or pn(_sub(lp.iter, env)) != "range(self._n_steps)":
         problems.append("loop does not run over the steps")
-    if f"start=x0+{i}*L/self._n_steps" not in t or f"end=x0+({i}+1)*L/self._n_steps" not in t:
-        problems.append("interval boundaries are not x0 + i*L/n and x0 + (i+1)*L/n (end of step i must be the same expression as start of step i+1)")
-    ifs = [s for s in lp.body if isinstance(s, ast.If)]
-    if len(ifs) != 1 or _norm(ifs[0].test) != f"{i}==0":
-        problems.append("first interval is not special-cased")
-    else:
-        first, rest = _norm(ifs[0].body[0].value), _norm(ifs[0].orelse[0].value)
-        if first != "np.where((self.grid>=start)&(self.grid<=end))":
-            problems.append(f"first interval is `{first}`, not closed [start, end]")
-        if rest != "np.where((self.grid>start)&(self.grid<=end))":
-            problems.append(f"later intervals are `{rest}`, not half-open (start, end]: a node on a boundary would belong to two steps or to none")
-    if "self._indices.append(interval_indices)" not in t:
-        problems.append("interval indices are not collected in order")
-    chk.add("C13-R4", f"{se.qual}.__init__/partition", not problems, site(repo, lp), "[x0, e0], (e0, e1], ... with shared boundary expressions", "; ".join(problems), lp)
+    # the collected value: last statement `<list>.append(X)`
+    body = list(lp.body)
+    last = body[-1] if body else None
+    if not (isinstance(last, ast.Expr) and isinstance(last.value, ast.Call) and isinstance(last.value.func, ast.Attribute) and last.value.func.attr == "append" and len(last.value.args) == 1):
+        raise AnchorError("StepExpansion.__init__: the per-step index set is not collected with append()")
+    coll = path_of(last.value.func.value)
+    body[-1] = ast.Return(value=last.value.args[0])
+    G, n = "self.grid", "self._n_steps"
+    lo = f"{G}[0]+{i}*({G}[-1]-{G}[0])/{n}"
+    hi = f"{G}[0]+({i}+1)*({G}[-1]-{G}[0])/{n}"
+    want = {True: f"np.where(({lo}<={G})&({G}<={hi}))[0]", False: f"np.where(({lo}<{G})&({G}<={hi}))[0]"}
+    for first in (True, False):
+        val = {pn(f"{i}==0"): first, pn(f"0=={i}"): first, pn(f"0<{i}"): not first, pn(f"{i}!=0"): not first}
+        k2, r2 = walk_stmts(body, val, pn, env)
+        if k2 != "return":
+            problems.append(f"{'first' if first else 'later'} interval: not decidable ({k2}: {r2})")
+            continue
+        got = pn(_SymOrder().visit(r2))
+        w = pn(_SymOrder().visit(ast.parse(want[first], mode="eval").body))
+        if got != w:
+            what = "closed [start, end]" if first else "half-open (start, end]: a node on a boundary would belong to two steps or to none"
+            problems.append(f"{'first' if first else 'later'} interval is `{unparse(r2)[:170]}`, not {what} with boundaries x0 + i*L/n and x0 + (i+1)*L/n "
+                            f"(the end of step i must be the same expression as the start of step i+1)")
+    # the collection ends up in self._indices, in step order
+    V = pn(init)
+    if not (coll == "self._indices" or pn(f"self._indices={coll}") in V):
+        problems.append("interval indices are not collected in order into self._indices")
+    chk.add("C13-R4", f"{se.qual}.__init__/partition", not problems, site(repo, src), "[x0, e0], (e0, e1], ... with shared boundary expressions", "; ".join(problems), src)
+
+
+def _sub(e, env):
+    from ..pathtable import _Sub
+    from ..canon import clone
+    return _Sub(env).visit(clone(e))
+
+
+def _walk_to_loop(fn, pn):
+    """walk to the first loop taking, at every test, the branch that does not raise (argument validation passes)"""
+    from ..cfg import CFG
+    from ..pathtable import walk
+    g = CFG(fn)
+    val = {}
+    for t in g.tests():
+        core, flip = t.ast, False
+        while isinstance(core, ast.UnaryOp) and isinstance(core.op, ast.Not):
+            core, flip = core.operand, not flip
+        # which edge leads only to a raise?
+        for lab in ("T", "F"):
+            tgt = [m for m, l in g.succ[t.id] if l == lab]
+            reach = g.reachable_from(tgt)
+            if g.exit.id not in reach and not any(g.nodes[x].kind == "iter" for x in reach):
+                truth = (lab == "F")           # take the other edge
+                val[pn(core)] = (not truth) if flip else truth
+    return walk(fn, val, pn)
 
 
 def _r5(chk, repo):
